@@ -90,6 +90,7 @@ type Exec struct {
 	marshals   map[*BObj]*marshalSnap
 	recCount   map[*ssa.Function]int
 	condWaits  int
+	records    map[string]Value
 }
 
 type goRec struct {
